@@ -66,7 +66,11 @@ class Member(object):
     """One delivery of the stream to a fresh agent."""
 
     def __init__(self, cfg, state, stream, cuts, gap):
-        w = World(cfg)
+        if cfg.get("handler") == "default":
+            from sim import simfs
+            w = World(cfg, fs=simfs.SimFS())
+        else:
+            w = World(cfg)
         for op in reach_ops(cfg, state):
             w.apply(op)
         self.reached = w.state()
@@ -159,6 +163,11 @@ class FramingCtx(object):
         if kind == "notif":
             return base.gen_notif(rng)
         if kind == "open":
+            if rng.chance(0.25):
+                # an OPEN with unusual capability contents (ADD-PATH / MP entries for families yabgp has no name
+                # for, odd lengths): framing and termination must not depend on what the body says
+                from sim.profiles import hostile
+                return rp.frame(rp.OPEN, hostile.structured_open(rng, cfg))
             return base.gen_open(rng, cfg, rng.pick(["valid", "valid", "badas", "hold1", "badver"]))
         if kind == "bad_len":
             return base.gen_bad_len(rng)
@@ -343,6 +352,33 @@ class FramingCtx(object):
                                 "stream %s in %s: delivered whole -> %s ; cut at %s -> %s"
                                 % (stream_hex[:120], state, brief(base_s), cuts[:8], brief(s)),
                                 {"whole": base_s, "cut": s, "cuts": cuts})
+        def unusual_open(f):
+            if f.error or f.type != rp.OPEN:
+                return False
+            b = f.body
+            if len(b) < 10 or b[9] == 0 or 10 + b[9] != len(b):
+                return True
+            i = 10
+            while i < len(b):                      # optional parameters: only well-formed capability parameters
+                if i + 2 > len(b) or b[i] != 2 or i + 2 + b[i + 1] > len(b):
+                    return True
+                j, end = i + 2, i + 2 + b[i + 1]
+                while j < end:                     # capabilities: only the everyday ones, exactly filling the parameter
+                    if j + 2 > end or j + 2 + b[j + 1] > end or b[j] not in (1, 2, 64, 65, 70, 128):
+                        return True
+                    if {2: 0, 128: 0, 70: 0, 65: 4, 1: 4}.get(b[j], b[j + 1]) != b[j + 1]:
+                        return True
+                    if b[j] == 1 and (b[j + 1] != 4 or (int.from_bytes(b[j + 2:j + 4], "big"), b[j + 5]) not in
+                                      [(1, 1), (2, 1), (1, 128), (2, 128), (1, 133), (25, 70), (16388, 71), (1, 4), (1, 73)]):
+                        return True
+                    j += 2 + b[j + 1]
+                i = end
+            return False
+        if any(unusual_open(f) for f in frames):
+            # OPENs with unusual capability contents (or none at all): yabgp's reading of them is C05/C14 matter;
+            # here only termination and independence of the segmentation are judged
+            self.stats["families_with_unusual_open(differential_only)"] += 1
+            return
         if cfg.get("hqueue") or cfg.get("hfail_at"):
             # with an application-side fault or queued message the reaction is not the reference model's
             # business: termination and independence of the segmentation were checked above
@@ -508,6 +544,11 @@ class FramingProfile(BaseProfile):
         cfg["peer_open"] = base.gen_open(rng, cfg, "valid", hold=rng.pick([0, 3, 30, 90, 180])).hex()
         cfg["mode"] = "random"
         cfg["rib"] = rng.chance(0.3)
+        if rng.chance(0.1):
+            # the stock DefaultHandler is the application
+            cfg["handler"] = "default"
+            cfg["write_disk"] = rng.chance(0.7)
+            cfg["rotate_bytes"] = 10 ** 9
         cfg["hfail_at"] = rng.pick([1, 2, 3, 4]) if rng.chance(0.12) else None
         cfg["hqueue"] = [rng.pick(["update", "update", "notification"]), rng.randrange(1, 9)] if rng.chance(0.12) else None
         n_random = self.runs_random[tier]
